@@ -29,7 +29,7 @@ def main(argv: List[str]) -> int:
         verify(run, stats, world, interp, fi, contract, label, on_fail, lambda msg, label=label: run.notes.append(f"{label}: outside the verified subset ({msg}); the exhaustive per-attribute table and the toggle / constructor sweeps stand in (bounded in the surrounding value)"))
     # ---- evaluated exhaustively: wire name of every attribute (exercises _to_camel_case on every committed name), omit rule, pairing
     res = check_classes(live, mm, decls)
-    n1, d1 = _tables.report(run, res, ["class-exists", "attr-for-prop", "no-extra-attr", "wire-name", "special", "default", "annotation"])
+    n1, d1 = _tables.report(run, res, ["class-exists", "class-hook", "attr-for-prop", "no-extra-attr", "wire-name", "special", "default", "annotation"])
     # second converter, reversed class order: the unstructure function of a class must not depend on history
     live2 = Live()
     live2._conv = live2.converters.get_converter()
